@@ -86,6 +86,10 @@ Combined(dc) == [dc EXCEPT !.tests = [x \in 1..Len(dc.tests) |-> [dc.tests[x] EX
 C15Compat(u) == {[Plain(<<Combined(C15Doc(p, cfg, exp, others))>>) EXCEPT !.compat = TRUE] :
                   p \in 0..3, cfg \in {"def", "docdef", "inline", "decoy"}, exp \in {None, 80}, others \in {[x \in 1..3 |-> "pass"], [x \in 1..3 |-> "failout"]}}
 
+\* a shell that dies (no exit code) in a document where nothing -- or only a test case that is never reached -- exits with the
+\* skip code: the test cases that consequently do not run are not "skipped"
+C15Signal(u) == {Plain(<<Md(MkTests(1, names))>>) : names \in {n \in [1..3 -> {"pass", "failout", "sig_noexp", "skip80"}] : \E x \in 1..3 : n[x] = "sig_noexp"}}
+
 \* ---- C20: several documents, shared prepend / append documents, detached, skip, signal, faults, Markdown and Cram
 C20Kinds  == {"pass", "failout", "failcode", "det", "skip80", "sig_noexp"}
 C20Cram   == {"pass", "failout", "failcode", "skip80"}
@@ -106,6 +110,11 @@ ScenC20(u) == {Run(<<d1>>, None, pre, app, via, FALSE) : d1 \in MdDocsOf(1), pre
            \cup {[Run(<<d1, d2>>, None, <<>>, <<>>, "cli", FALSE) EXCEPT !.dirarg = TRUE] : d1 \in DocsOf(1), d2 \in DocsOf(2)}
            \cup {[Run(<<d1, Md(MkTests(2, <<"pass">>)), Cram(MkCram(3, <<n3>>))>>, None, <<>>, <<>>, "cli", FALSE) EXCEPT !.dirarg = TRUE] :
                      d1 \in DocsOf(1), n3 \in {"pass", "failout"}}
+           \* -P / -A named relative to the current directory while the tested document lies elsewhere
+           \cup {[Run(<<d1>>, None, pre, app, "cli", FALSE) EXCEPT !.rel = TRUE] :
+                     d1 \in {Md(MkTests(1, <<n1>>)) : n1 \in {"pass", "failout"}}, pre \in Shared("p1"), app \in Shared("a1")}
+           \cup {[Run(<<d1>>, None, pre, app, "cli", FALSE) EXCEPT !.rel = TRUE] :
+                     d1 \in {Cram(MkCram(1, <<"pass">>))}, pre \in CramShared("p1"), app \in CramShared("a1")}
            \* a document limit that is exceeded (per-document and per-test), alone and followed by another document
            \cup {Run(<<Doc("md", tfm, None, "no", <<Kind("pass", "d1t1"), Tc("d1t2", "exit", 0, 3, None, "none", "stdout", "none", t, FALSE, None)>>)>> \o rest,
                       None, <<>>, <<>>, "cli", FALSE) :
@@ -156,7 +165,7 @@ DetachedAndCut(cuts) ==
         tests \in UNION {{<<Kind("det", "d1t1"), CutTc(x, "d1t2"), Kind("pass", "d1t3")>>,
                           <<Kind(n1, "d1t1"), Kind("det", "d1t2"), CutTc(x, "d1t3")>>} : x \in cuts, n1 \in {"pass", "failout"}}}
 Scenarios == CASE Focus = "C05" -> ScenC05(0) \cup SharedAndTimeout(0) \cup DetachedAndCut({"slow", "sig_noexp", "failcode"}) \cup SharedPlain(0)
-               [] Focus = "C14" -> ScenC14(0) \cup DetachedAndCut({"slow"}) \cup LimitAndShared(0) \cup NoTerm(0) [] Focus = "C15" -> ScenC15(0) \cup DetachedAndCut({"skip80", "slow"}) \cup C15Compat(0)
+               [] Focus = "C14" -> ScenC14(0) \cup DetachedAndCut({"slow"}) \cup LimitAndShared(0) \cup NoTerm(0) [] Focus = "C15" -> ScenC15(0) \cup DetachedAndCut({"skip80", "slow"}) \cup C15Compat(0) \cup C15Signal(0)
                [] Focus = "C20" -> ScenC20(0) \cup SharedAndTimeout(0) \cup DetachedAndCut({"slow", "sig_noexp", "skip80", "failout"}) \cup ScriptExit(0)
 
 Init == /\ sc \in Scenarios
